@@ -9,7 +9,7 @@ from vv.ref import tree as ref
 from vv.util import deq
 
 ID = 'C10'
-CASES = {'quick': 120, 'thorough': 2000}
+CASES = {'quick': 300, 'thorough': 20000}
 HANG_IS_VIOLATION = True
 RULE = ('Structural histories as in C09 (operator process, 1..6 batches of '
         '_add/_delete/_generate/_divide/_move on compartments) where '
